@@ -356,3 +356,89 @@ def pat_str(p):
     if k == "range":
         return "%s..%s" % (p["lo"], p["hi"])
     return k
+
+
+def decide(e, var, val, subst=None, depth=0):
+    """What the expression `e` yields when the variable named `var` holds the enumerated value `val` - decided with pattern semantics only:
+    `match var {..}` picks its first matching arm, `if` follows a condition that is itself decided (`matches!(var, P)`, `var == V`, `!c`,
+    `a && b`), blocks yield their tail, single-assignment locals are read through `subst` (pathx.let_substitutions).  Returns
+    ('b', bool) | ('v', adt, variant, fields) | ('d', description) for anything else, or None when a branch on something other than `var`
+    (or an unreadable pattern) decides the result."""
+    if depth > 40:
+        return None
+    subst = subst or {}
+    while isinstance(e, dict):
+        k = e.get("k")
+        if k in ("ref", "deref", "coerce", "rawref", "cast"):
+            e = e["e"]
+        elif k == "block" and e.get("e") is not None and all(isinstance(s, dict) and s.get("k") == "let" and s.get("else") is None for s in e.get("s", [])):
+            e = e["e"]
+        elif k == "var" and ("#%d" % e["id"] if "id" in e else None) in subst:
+            e = subst["#%d" % e["id"]]
+        else:
+            break
+    if not isinstance(e, dict):
+        return None
+    k = e.get("k")
+
+    def is_var(x):
+        x = peel(x)
+        while isinstance(x, dict) and x.get("k") == "var" and ("#%d" % x["id"] if "id" in x else None) in subst:
+            x = peel(subst["#%d" % x["id"]])
+        return isinstance(x, dict) and x.get("k") in ("var", "upvar") and x.get("n") == var
+    if k == "lit" and "b" in e:
+        return ("b", e["b"])
+    if k == "match" and e.get("src") == "Normal":
+        if not is_var(e["e"]):
+            return None
+        i = first_arm(e, val)
+        if i is None:
+            return None
+        return decide(e["arms"][i]["b"], var, val, subst, depth + 1)
+    if k == "if":
+        c = e.get("c")
+        cp = peel(c)
+        if isinstance(cp, dict) and cp.get("k") == "letx":
+            if not is_var(cp["e"]):
+                return None
+            r = pat_matches(cp["p"], val, None)
+            cv = None if r is None else ("b", bool(r))
+        else:
+            cv = decide(c, var, val, subst, depth + 1)
+        if cv == ("b", True):
+            return decide(e["t"], var, val, subst, depth + 1)
+        if cv == ("b", False):
+            return decide(e["e"], var, val, subst, depth + 1) if e.get("e") is not None else ("d", "()")
+        return None
+    if k == "un" and e.get("op") == "Not":
+        c = decide(e["e"], var, val, subst, depth + 1)
+        return ("b", not c[1]) if c and c[0] == "b" else None
+    if k == "logic":
+        a = decide(e["a"], var, val, subst, depth + 1)
+        if not a or a[0] != "b":
+            return None
+        if (e["op"] == "or") == a[1]:
+            return a
+        return decide(e["b"], var, val, subst, depth + 1)
+    if k in ("bin", "call"):
+        # var == Variant / var != Variant (operator or PartialEq call) against a fieldless variant literal
+        op, args = None, None
+        if k == "bin" and e.get("op") in ("Eq", "Ne"):
+            op, args = e["op"], [e["a"], e["b"]]
+        elif k == "call":
+            f = peel(e["fn"])
+            nm = (f.get("def") or "") if isinstance(f, dict) else ""
+            if nm.endswith("PartialEq::eq") or nm.endswith("PartialEq::ne"):
+                op, args = ("Eq" if nm.endswith("eq") else "Ne"), e["a"]
+        if op and len(args) == 2:
+            for x, y in ((args[0], args[1]), (args[1], args[0])):
+                yp = peel(y)
+                if is_var(x) and isinstance(yp, dict) and yp.get("k") == "adt" and not yp.get("f") and val[0] == "v":
+                    same = yp.get("v") == val[2]
+                    return ("b", same if op == "Eq" else not same)
+            if is_var(args[0]) or is_var(args[1]):
+                return None
+    if k == "adt":
+        return expr_value(e)
+    from . import pathx as _px
+    return ("d", _px.desc(e))
